@@ -11,6 +11,8 @@ class Ctx:
         self.rnd = rnd; self.cfg = cfg; self.nreg = 3; self.nvars = nvars
         self.defined = set()
         self.lists = {}            # list-valued variable -> shape: [n] (flat) or [n, m] (nested)
+        self.arrays = {}           # pysnark.array.Array-valued variable -> length (1-D)
+        self.bools = set()         # variables holding secret booleans (LinCombBool: results of comparisons)
 
     def paths(self, v):
         sh = self.lists[v]
@@ -27,7 +29,13 @@ def gen_expr(cx, out, depth_ix=None):
     srcs = [0, 1, 2]
     vs = sorted(cx.defined)
     k = r.random()
-    if cx.lists and k < 0.25:
+    if cx.arrays and k < 0.2:
+        # read an element of an Array-valued variable (public or secret index); the alias register is used at once and never again
+        v = r.choice(sorted(cx.arrays))
+        t = cx.reg(); out.append(["bget", t, v])
+        i = array_index(cx, out, cx.arrays[v])
+        a = cx.reg(); out.append(["arrget", a, t, [i]])
+    elif cx.lists and k < 0.25:
         v = r.choice(sorted(cx.lists))
         a = cx.reg(); out.append(["bgetidx", a, v, r.choice(cx.paths(v))])
     elif vs and k < 0.6:
@@ -46,8 +54,19 @@ def gen_expr(cx, out, depth_ix=None):
     return d
 
 
+def array_index(cx, out, n):
+    """register holding an index into an array of length n: mostly a public int, sometimes the secret input 2 (values 0..2)"""
+    r = cx.rnd
+    if n >= 3 and r.random() < 0.3: return 2
+    i = cx.reg(); out.append(["const", i, ["int", r.randrange(0, n)]])
+    return i
+
+
 def gen_cond(cx, out, depth_ix=None):
     r = cx.rnd
+    if cx.bools and r.random() < 0.25:
+        d = cx.reg(); out.append(["bget", d, r.choice(sorted(cx.bools))])
+        return d
     a = gen_expr(cx, out, depth_ix)
     if r.random() < 0.5:
         b = cx.reg(); out.append(["const", b, ["int", r.choice([0, 1, 2, 3, 5])]])
@@ -62,7 +81,18 @@ def gen_body(cx, depth, length, ix=None, in_loop=False):
     out = []
     for _ in range(length):
         k = r.random()
-        if (k < 0.55 or depth >= 2) and cx.lists and r.random() < 0.45:
+        if (k < 0.55 or depth >= 2) and cx.bools and r.random() < 0.3:
+            # a boolean-valued variable assigned inside the block: the merge acts on the wrapper objects
+            v = r.choice(sorted(cx.bools))
+            e = gen_cond(cx, out, ix)
+            out.append(["bset", v, e])
+        elif (k < 0.55 or depth >= 2) and cx.arrays and r.random() < 0.45:
+            # in-place write into an Array-valued variable: _.v[i] = e
+            v = r.choice(sorted(cx.arrays))
+            e = gen_expr(cx, out, ix)
+            i = array_index(cx, out, cx.arrays[v])
+            out.append(["barrset", v, [i], e])
+        elif (k < 0.55 or depth >= 2) and cx.lists and r.random() < 0.45:
             # in-place write into a (nested) list variable: _.v[i][j] = e
             v = r.choice(sorted(cx.lists))
             e = gen_expr(cx, out, ix)
@@ -132,11 +162,26 @@ def gen_case(rnd, moduli, bitlengths=(5, 6)):
                 rr = cx.reg(); prog.append(["list", rr, es]); rows.append(rr)
             d = cx.reg(); prog.append(["list", d, rows])
         prog.append(["bset", v, d]); cx.lists[v] = shape
+    if rnd.random() < 0.35:
+        # an Array-valued variable (pysnark.array.Array): written in place inside the blocks, merged as a whole at block exit
+        v = cx.nvars + 1
+        n = rnd.choice([2, 3, 3])
+        es = []
+        for _ in range(n):
+            r0 = cx.reg()
+            if rnd.random() < 0.5: prog.append(["constval", r0, rnd.choice([0, 1, 2, 7])])
+            else: prog.append(["bin", r0, "add", rnd.choice([0, 1, 2]), rnd.choice([0, 1, 2])])
+            es.append(r0)
+        d = cx.reg(); prog.append(["arrnew", d, es]); prog.append(["bset", v, d]); cx.arrays[v] = n
+    if rnd.random() < 0.4:
+        v = cx.nvars + 2
+        c0 = gen_cond(cx, prog)
+        prog.append(["bset", v, c0]); cx.bools.add(v)
     prog += gen_body(cx, 0, rnd.choice([1, 2, 2, 3]))
-    for v in sorted(cx.defined) + sorted(cx.lists):
+    for v in sorted(cx.defined) + sorted(cx.lists) + sorted(cx.arrays) + sorted(cx.bools):
         prog.append(["bget", cx.reg(), v])
     ins = [rnd.choice([0, 1, 2, 3]), rnd.choice([0, 1, 2, 3, 4]), rnd.choice([0, 1, 2])]
-    return dict(cfg=cfg, prog=prog, ins=ins)
+    return dict(cfg=cfg, prog=prog, ins=ins, arrays=sorted(cx.arrays))
 
 
 # ------------------------------------------------------------------ native twin
@@ -165,9 +210,18 @@ def twin(case, cap_for=True):
                 a, b = regs[s[3]], regs[s[4]]
                 regs[s[1]] = {"add": lambda: a + b, "sub": lambda: a - b, "mul": lambda: a * b, "lt": lambda: int(a < b), "le": lambda: int(a <= b),
                               "eq": lambda: int(a == b), "ne": lambda: int(a != b), "gt": lambda: int(a > b), "ge": lambda: int(a >= b)}[s[2]]()
-            elif op == "bset": vals[s[1]] = regs[s[2]]
+            elif op == "bset": vals[s[1]] = list(regs[s[2]]) if isinstance(regs[s[2]], list) and s[1] in case.get("arrays", ()) else regs[s[2]]
             elif op == "bget": regs[s[1]] = vals[s[2]]
             elif op == "list": regs[s[1]] = [regs[i] for i in s[2]]
+            elif op == "arrnew": regs[s[1]] = [regs[i] for i in s[2]]
+            elif op == "arrget":
+                i = regs[s[3][0]]
+                if not (0 <= i < len(regs[s[2]])): raise TwinError("index")
+                regs[s[1]] = regs[s[2]][i]
+            elif op == "barrset":
+                i = regs[s[2][0]]
+                if not (0 <= i < len(vals[s[1]])): raise TwinError("index")
+                vals[s[1]][i] = regs[s[3]]
             elif op == "bsetidx":
                 t = vals[s[1]]
                 for i in s[2][:-1]: t = t[i]
